@@ -5,7 +5,7 @@ import wire
 from props.common import quiet_ccp
 
 ID = "C15"
-LEAN_MODULES = ["Ccp.Props.C15"]
+LEAN_MODULES = ["Ccp.Props.C15", "Ccp.Props.RxC15"]
 RULE = ("names: description = prefix (Ethernet, Eth, Gi, GigabitEthernet, Port-channel, Bundle-Ether, Serial, Vlan, Loopback, Tunnel, ATM, "
         "TenGigE, mgmt, '', or random [A-Za-z-]+ ending in a letter) x 1..3 numbers 0..9999 (boundary biased: 0,1,9,10,99,100,"
         "999,1000,4094,9999) joined by '/' x optional .sub x optional :chan x optional class word over [A-Za-z-]; the surface "
@@ -32,6 +32,7 @@ LEVEL_NOTE = ("Trusted: Lean kernel; axioms propext/Classical.choice/Quot.sound 
               "is re-implemented as character-class scanners and the interval split re.split(r'(?<=\\d)\\s*-\\s*(?=\\d)') as a four-state automaton "
               "(agreement measured, not proved); set()/sorted() re-implemented "
               "as one insertion pass. Proved about the model, measured against the code.")
+LEVEL_NOTE += (" " + "regexes_as_modelled (Ccp.RxC15): every regular expression / separator of CiscoIOSInterface.parse_single_interface (with parse_intf_short / parse_intf_long) and of CiscoRange.__init__ + parse_cisco_interfaces (incl. the interval splitter (?<=\\d)\\s*-\\s*(?=\\d)) is re-read from /repo's AST on every run and proved equal to the literal the scanner of Model/Intf.lean (matchHead, firstDigits, searchAfter, classWord, scanSlotCardPort, splitIv) was written for.")
 EXHAUSTIVE = {"quick": False, "thorough": False}
 ASSUMPTIONS = [
     "digits are ASCII (\\d, str.isdigit and int() of CPython also accept other Unicode decimal digits)",
